@@ -193,21 +193,10 @@ def toRow (r : Regs) : Row :=
 
 /-! ## the "any input" clause: addresses inside a sequence -/
 
-/-- **Monotone trace.** `lo` is the address of the last row of the current sequence (0 at its
-start). Every *returned* row has an address `≥ lo` and `≤` the all-ones value of the address
-size; a row with `end_sequence` — returned or swallowed as a tombstone (`hidden`) — starts a new
-sequence. Errors do not interrupt a sequence. -/
-def MonoTrace (size : Nat) : Nat → List Ev → Prop
-  | _, [] => True
-  | lo, .row r :: evs =>
-    lo ≤ r.address ∧ r.address ≤ onesSized size ∧
-      MonoTrace size (if r.endSequence then 0 else r.address) evs
-  | lo, .hidden r :: evs => MonoTrace size (if r.endSequence then 0 else lo) evs
-  | lo, .err _ :: evs => MonoTrace size lo evs
-  | lo, .stuck :: evs => MonoTrace size lo evs
-
-/-- **Monotone as the caller sees it**: the same, but only returned rows can end a sequence
-(the caller cannot see a swallowed `end_sequence`). -/
+/-- **Monotone as the caller sees it.** `lo` is the address of the last returned row of the
+current sequence (0 at its start). Every returned row has an address `≥ lo` and `≤` the all-ones
+value of the address size; a returned row with `end_sequence` starts a new sequence. Errors and
+rows that `next_row` swallowed (`hidden`) neither interrupt nor end a sequence. -/
 def MonoObserved (size : Nat) : Nat → List Ev → Prop
   | _, [] => True
   | lo, .row r :: evs =>
@@ -235,12 +224,6 @@ theorem monoObservedB_iff (size : Nat) (evs : List Ev) : ∀ lo,
 
 instance (size lo : Nat) (evs : List Ev) : Decidable (MonoObserved size lo evs) :=
   decidable_of_iff _ (monoObservedB_iff size evs lo)
-
-/-- no `end_sequence` row was swallowed as a tombstone -/
-def NoHiddenEnd : List Ev → Prop
-  | [] => True
-  | .hidden r :: evs => r.endSequence = false ∧ NoHiddenEnd evs
-  | _ :: evs => NoHiddenEnd evs
 
 /-! ## which instructions the encoding can express -/
 
